@@ -19,6 +19,8 @@ CLAIMED = {
          "Three dispatch tables, 16 tag parsers, list parsers and content parsers compared with reference grammars; GREASE predicate tabulated over all 65536 types; variant->type mapping evaluated abstractly for every variant.", "4 C05"),
  "C06": ("region/remainder dataflow on extracted grammars; type and signature rules; MIR copy-call inventory", "other",
          "Structural necessary-and-sufficient shape for locality (every nested parser runs on its region; nothing extent-sensitive outside a region; remainder is the last element's) plus type-level zero-copy facts discharged by rustc's borrow checker under forbid(unsafe_code).", "4 C06"),
+ "C07": ("exhaustive path-summary enumeration of the loop-free defragmenter methods vs a reference protocol", "other",
+         "All entry->exit paths of the four methods (parser outcome split into six classes) are abstracted to (guards, ordered effects on self, exit class) and compared as a set with the reference protocol: type check, saturating size check with >= 10 MiB before any append, clear-before-fill, append-then-reparse-whole-buffer, type cleared only on success, nocopy refusal without effects, reset = derived Default; private state and who-may-touch-state are checked too.", "4 C07"),
  "C08": ("exhaustive decision-table extraction by abstract evaluation", "other",
          "All 1150 cells (25 states x 23 message kinds x 2 directions) are evaluated abstractly from the HIR with arbitrary payloads and compared with a reference relation; content independence is decided by the evaluator refusing any other inspection of the message.", "4 C08"),
  "C10": ("parser-grammar extraction vs RFC 6347 grammar", "other",
